@@ -493,6 +493,22 @@ def _(vm, a, ci):
     return n
 
 
+@trait(('ExactSizeIterator', 'len'))
+def _(vm, a, ci):
+    def n(it):
+        it = obj(vm, it)
+        if not isinstance(it, It): raise Unmodelled(f'ExactSizeIterator::len on {it!r}'[:120])
+        k, x = it.kind, it.a
+        if k == 'list': return len(x[0]) - x[1]
+        if k == 'refs': return x[2] - x[1]
+        if k == 'once': return 0 if x[0] is None else 1
+        if k == 'empty': return 0
+        if k in ('map', 'rev', 'enumerate', 'cloned', 'copied', 'inspect'): return n(x[0])
+        if k == 'chain': return (n(x[0]) if x[0] is not None else 0) + (n(x[1]) if x[1] is not None else 0)
+        raise Unmodelled('ExactSizeIterator::len on iterator kind ' + k)
+    return n(a[0])
+
+
 @trait(('Iterator', 'last'))
 def _(vm, a, ci):
     last = None
